@@ -48,6 +48,8 @@ inductive IOp where
   | handle (k : Nat)
   /-- forward_intercepted_htlc / fail_intercepted_htlc / the expiry sweep of best_block_updated: the entry is removed -/
   | resolve (id : Nat)
+  /-- the best block becomes `height`: the expiry sweep drops (and fails back) the held HTLCs for which GENERATED `interceptTimedOut` holds -/
+  | blocks (height : Nat)
   /-- the ChannelManager is written -/
   | persist
   /-- crash; restart from the last written manager (legacy = production reload path) -/
@@ -65,6 +67,7 @@ def istep (s : ISt) : IOp → ISt
   | .handle k =>
     { s with live := { s.live with queue := s.live.queue.drop k }, told := s.told ++ (s.live.queue.take k).map (·.interceptId) }
   | .resolve id => { s with live := { s.live with held := s.live.held.filter (·.1 != id) } }
+  | .blocks height => { s with live := { s.live with held := s.live.held.filter (fun kv => !interceptTimedOut height kv.2) } }
   | .persist => { s with disk := s.live }
   | .crash => { s with live := reloadI false s.disk, told := [] }
 
